@@ -447,6 +447,23 @@ def register(kernel):
            corollaries=[("elementwise_division_divides", "forall x y : (R * R)%type, y <> Coquelicot.Complex.RtoC 0 -> Coquelicot.Complex.Cmult (GEN x y) y = x",
                          "intros x y Hy; rewrite TIE; exact (cediv_divides x y Hy)")], **cf)
 
+    # ------------------------------------------------------------------ C04: the index arithmetic of _kron_mult
+    # loop-carried l, r and the loop variables k, i are inputs (the theorems quantify over them); n[s] is the matrix size of site s
+    km = dict(file="qucumber/utils/unitaries.py", func="_kron_mult", kind="local", inputs=[], atoms=[("n[s]", "ns", Z)],
+              carried={"l": ("l", Z), "r": ("r", Z)}, loop_vars={"k": ("k", Z), "i": ("i", Z)}, imports=["KronIndex"])
+    kernel("C04", name="kron_slice", target="slc", coq_params=[("ns", "Z"), ("r", "Z"), ("k", "Z"), ("i", "Z")], result=(Z, Z, Z),
+           thm_params=[("r", "nat"), ("k", "nat"), ("i", "nat")], hyps=["(i < r)%nat"], gen_args="2%Z (Z.of_nat r) (Z.of_nat k) (Z.of_nat i)", model="",
+           stmt="let '(start, stop, step) := GEN 2%Z (Z.of_nat r) (Z.of_nat k) (Z.of_nat i) in "
+                "start = Z.of_nat (k * 2 * r + i) /\\ step = Z.of_nat r /\\ forall j : Z, (0 <= j)%Z -> ((start + j * step < stop)%Z <-> (j < 2)%Z)",
+           model_name="KronIndex.inner_loop / apply2 (the slice selects exactly the positions p = k*2*r+i and p + r, for every r, k and i < r)",
+           tactic="intros r k i Hi; cbv [GEN]; split; [lia | split; [reflexivity | intros j Hj; split; intros H; nia]]", **km)
+    kernel("C04", name="kron_left_extent", target="l", coq_params=[("ns", "Z"), ("l", "Z")], result=Z,
+           thm_params=[("l", "nat")], gen_args="2%Z (Z.of_nat l)", model="Z.of_nat (Nat.div l 2)",
+           model_name="KronIndex.sweep (l' = l / 2)", tactic="intros l; cbv [GEN]; tie_zarith", **km)
+    kernel("C04", name="kron_right_extent", target="r", coq_params=[("ns", "Z"), ("r", "Z")], result=Z,
+           thm_params=[("r", "nat")], gen_args="2%Z (Z.of_nat r)", model="Z.of_nat (r * 2)",
+           model_name="KronIndex.sweep (r' = r * 2)", tactic="intros r; cbv [GEN]; lia", **km)
+
 def register_corollaries(cor):
     """property-level facts stated over SEVERAL generated kernels at once (compiled with the combined generated file)"""
     # C05: the Markov kernel assembled from the TRANSLATED conditionals satisfies detailed balance with respect to the weight
